@@ -40,6 +40,10 @@ def rand_pct_layout(rng, need_origin=False):
         if rng.random() < 0.7:
             w = rng.choice([v for v in vals if 0 < v <= 90 - x])
             h = rng.choice([v for v in vals if 0 < v <= 95 - y])
+            if rng.random() < 0.25:
+                # reaching beyond the safe area (fit_to_screen has to clamp): right edge in (90, 100]
+                w = rng.choice([90 - x + 0.5, 90 - x + 3, 95 - x, 100 - x])
+                h = rng.choice([h, 95 - y + 2, 100 - y])
             lay['extent'] = [[float(w), '%'], [float(h), '%']]
     elif rng.random() < 0.5:
         lay['extent'] = [[float(rng.choice(vals[1:])), '%'], [float(rng.choice(vals[1:])), '%']]
